@@ -24,6 +24,7 @@ func runC12(w *core.World, r *core.Report) {
 	r.Rule("R1", "fs Put path: only CreateTemp(dir of record) / Write / Close / Rename(temp name, record) / Remove(temp); order Write,Close < Rename; success passes Rename; no other renamer/writer in db/fs")
 	r.Rule("R2", "engine: fallback Save only behind db.IsNotFound(load error); Load returns the store's error unchanged")
 	r.Rule("R3", "no directory-wide file operation under Put")
+	r.Rule("R4", "the session snapshot is one record: Persister.Save performs exactly one Put, Load exactly one Get (no multi-step save)")
 
 	put := anchor(w, r, "db/fs", "(*fsDb).Put")
 	if put == nil {
@@ -126,6 +127,15 @@ func runC12(w *core.World, r *core.Report) {
 					return ok && core.IsCallTo(cc, "os.(*File).Write", "os.(*File).WriteString")
 				}, nil)
 				r.Check(in == nil, "R1", core.QName(f)+": no write after Rename", c.Pos(), "none", "the file is written after it has been renamed into place")
+			case "remove":
+				args := core.CallArgs(c)
+				okTmp := false
+				for _, s := range core.Sources(args[0]) {
+					if nc, _, isC := core.ExtractOf(s); isC && core.IsCallTo(nc, "os.(*File).Name") {
+						okTmp = true
+					}
+				}
+				r.Check(okTmp, "R1", key, c.Pos(), "removes the temporary file", "the Put path removes something other than its own temporary file (for instance the record itself before the rename): a crash in between leaves no record, and the engine silently starts a new session")
 			default:
 				r.OK("R1", key, c.Pos(), "protocol step: "+kind)
 			}
@@ -189,6 +199,39 @@ func runC12(w *core.World, r *core.Report) {
 					"record names are written / renamed / removed outside the atomic Put protocol (for instance a recovery step that moves leftover temporary files over intact records)")
 			}
 		}
+	}
+
+	// ---- R4 -----------------------------------------------------------------------------------
+	for _, pc := range []struct{ fn, call, what string }{{"(*Persister).Save", "db.Db.Put", "Put"}, {"(*Persister).Load", "db.Db.Get", "Get"}} {
+		fn := anchor(w, r, "persist", pc.fn)
+		if fn == nil {
+			continue
+		}
+		// count call sites in the function and the persist helpers it calls
+		fam := map[*ssa.Function]bool{fn: true}
+		for changed := true; changed; {
+			changed = false
+			for f := range fam {
+				for _, c := range core.Calls(f) {
+					if g := core.StaticCallee(c); g != nil && core.PkgOf(g) == "persist" && !fam[g] && len(g.Blocks) > 0 {
+						fam[g] = true
+						changed = true
+					}
+				}
+			}
+		}
+		n := 0
+		inLoop := false
+		for f := range fam {
+			for _, c := range core.CallsTo(f, pc.call) {
+				n++
+				if loopHeader(c.Block()) != nil {
+					inLoop = true
+				}
+			}
+		}
+		r.Check(n == 1 && !inLoop, "R4", "persist."+pc.fn+": one "+pc.what+" per snapshot", fn.Pos(), "exactly one "+pc.what,
+			fmt.Sprintf("the snapshot is stored/read in %d steps (or in a loop): a crash between the steps leaves a mixed record (new state with old cache) that loads without error", n))
 	}
 
 	// ---- R2 -----------------------------------------------------------------------------------
